@@ -99,9 +99,17 @@ def check_moving(ctx, case):
 def check_pattern(ctx, case):
     op, trace, pattern = case['op'], case['trace'], case['pattern']
     import warnings
+    t_arg, p_arg = gen.L(case, trace), gen.L(case, pattern, 1)
+    if case.get('pattern_view') is not None:
+        # the pattern is a VIEW of the trace itself (the usual way to cut a reference pattern out of a trace)
+        t_arg = np.array(trace, copy=True)
+        i0 = int(case['pattern_view'])
+        p_arg = t_arg[i0:i0 + len(pattern)]
     with warnings.catch_warnings():
         warnings.simplefilter('ignore')
-        out = must(case, '%s(trace %d, pattern %d)' % (op, len(trace), len(pattern)), getattr(sp, op), gen.L(case, trace), gen.L(case, pattern, 1))
+        out = must(case, '%s(trace %d, pattern %d)' % (op, len(trace), len(pattern)), getattr(sp, op), t_arg, p_arg)
+    if not (np.array_equal(t_arg, trace, equal_nan=True) and np.array_equal(p_arg, pattern, equal_nan=True)):
+        raise Violation('%s modified its input arrays' % op, case)
     n, N = len(pattern), len(trace)
     if np.shape(out) != (N - n + 1,):
         raise Violation('%s: result shape %s, expected (%d,)' % (op, np.shape(out), N - n + 1), case)
@@ -204,7 +212,7 @@ def check_extract(ctx, case):
         ok = np.shape(out) == exp.shape and np.allclose(out, exp, rtol=1e-12, atol=1e-12)
     if not ok:
         raise Violation('extract_around_indexes(mode=%s, before=%d, after=%d): result differs from the documented samples' % (mode, before, after), case)
-    ctx.case(case, True, ['extract:' + str(mode)])
+    ctx.case(case, True, ['extract:' + str(mode), 'index_dtype:' + str(idx.dtype)] + (['window_beyond_index_dtype_max'] if int(idx.max()) + after > np.iinfo(idx.dtype).max else []))
 
 
 # ------------------------------------------------------------------------------------------------
@@ -312,9 +320,11 @@ def pattern_cases(draw):
     if draw(st.booleans()) and n >= 2:
         i = draw(st.integers(0, N - n))
         pattern = trace[i:i + n].copy()      # an exact occurrence: correlation 1 / distance 0 at window i
+        view = i if draw(st.booleans()) else None
     else:
         pattern = draw(hnp.arrays(dt, (n,), elements=_values(dt, small)))
-    return {'kind': 'pattern', 'op': op, 'trace': trace, 'pattern': pattern}
+        view = None
+    return {'kind': 'pattern', 'op': op, 'trace': trace, 'pattern': pattern, 'pattern_view': view}
 
 
 @st.composite
@@ -340,6 +350,15 @@ def extract_cases(draw):
     after = draw(st.integers(0, n - 1 - before))
     k = draw(st.integers(1, 5))
     idx = np.array([draw(st.integers(before, n - 1 - after)) for _ in range(k)], dtype=draw(st.sampled_from(['int64', 'int32', 'uint8'])))
+    if draw(st.integers(0, 3)) == 0:
+        # indexes held in a narrow integer dtype, close to its maximum, on a trace that is longer than that maximum
+        idt, n = draw(st.sampled_from([('uint8', 300), ('int8', 160), ('int16', 32790), ('uint16', 65560)]))
+        mx = int(np.iinfo(idt).max)
+        seed_ = draw(st.integers(0, 2 ** 32))
+        data = np.random.Generator(np.random.PCG64(seed_)).integers(0, 200, size=n).astype(dt)
+        before = draw(st.integers(0, 5))
+        after = draw(st.integers(1, 20))
+        idx = np.array([draw(st.integers(mx - 12, mx)) for _ in range(k)], dtype=idt)
     return {'kind': 'extract', 'data': data, 'indexes': idx, 'before': before, 'after': after, 'mode': draw(st.sampled_from([None, 'stack', 'concatenate', 'average']))}
 
 
